@@ -83,9 +83,27 @@ func VerifH_C19_writeCFHeaders() {
 	}
 	preF := append([]chainhash.Hash(nil), e.fs.hashes...)
 	ev0 := len(e.events)
+	// the filter-header store may fail to write the batch (I/O error)
+	writeFails := vpParam("storefaults", 1) == 1 && vpRange("filterStoreWriteFails", 0, 1) == 1
+	if writeFails {
+		e.fs.ctl.failAt = e.fs.ctl.calls + 1
+	}
 
 	tip, tipH, err := e.bm.writeCFHeadersMsg(msg, e.fs)
 	vpQuiesce()
+	e.fs.ctl.failAt = 0
+	if writeFails && prevOK && !stale {
+		// nothing was committed: no block may be announced, the in-memory
+		// filter tip and the backlog offered to subscribers stay where they were
+		vpReach("filter-store-write-failed")
+		vpAssert(err != nil, "failed-commit-is-reported")
+		vpAssert(len(e.fs.hashes) == len(preF), "failed-commit-leaves-the-store-unchanged")
+		vpAssert(len(e.events) == ev0, "nothing-announced-for-a-batch-that-was-not-stored")
+		vpAssert(int(e.bm.filterHeaderTip) == ft && e.bm.filterHeaderTipHash == e.chain[ft].BlockHash(), "in-memory-filter-tip-unchanged-after-a-failed-commit")
+		_, best, berr := e.bm.NotificationsSinceHeight(0)
+		vpAssert(berr == nil && int(best) == ft, "backlog-basis-unchanged-after-a-failed-commit")
+		return
+	}
 	if stale {
 		vpReach("answer-for-a-disconnected-stop-block")
 		vpAssert(err != nil, "answer-for-a-disconnected-block-is-refused")
